@@ -120,6 +120,41 @@ def run(ctx):
     ext = {n_ for n_, f_ in P.fns.items() if re.search(r'jerasure|shss|phazrio', f_.mod.src)}
     _c16.run_r16a(ctx, P, r, only_fn=ext, every_backend=True)
     r.require_min(3)
+    r = ctx.rule('R17e', 'init of every back end (external ones included): an entry point kept in the descriptor is called only after it was stored on that path',
+                 'an error exit that "releases library state" through desc->some_function reaches the call with the member still NULL (calloc) or indeterminate (malloc) '
+                 'when the refusal came before the symbols were bound: create crashes instead of returning an error')
+    cg17 = callgraph.get(P)
+    n17e = 0
+    from ..ir import INT as _INT17
+    for iname in sorted(set(cg17.slot_functions('init').values())):
+        fi = P.fns.get(iname)
+        if fi is None:
+            continue
+        for al in [i for i in fi.insts() if i.op == 'call' and i.callee in ('@malloc', '@calloc') and i.res]:
+            A17, _ = derived_pointers(fi, [al.res])
+            def fld(ptr):
+                root, steps = access_path(P, fi, ptr)
+                fl = fields_in_path(steps)
+                return tuple(fl) if fl and (strip_ptr_casts(fi, root) in A17 | {al.res} or root in A17) else None
+            for c_ in [i for i in fi.insts() if i.op == 'call' and (i.callee or '').startswith('%')]:
+                ld = fi.defs.get(c_.callee)
+                if ld is None or ld.op != 'load' or ld.ops[0] not in A17:
+                    continue
+                fp = fld(ld.ops[0])
+                if not fp:
+                    continue
+                n17e += 1
+                esc = reaches_without(fi, al.bb, lambda i_: i_ is ld, lambda i_, fp=fp: i_.op == 'store' and i_.ops[1] in A17 and fld(i_.ops[1]) == fp, al.idx + 1)
+                inst = f'{iname}: call through {".".join(x[1] for x in fp)} at line {c_.line}'
+                if esc is None:
+                    r.ok(inst + ' follows the store of that member on every path', func=fi.name, loc=c_.loc)
+                else:
+                    r.fail(inst, func=fi.name, sig=f'call through descriptor member {fp[-1][1]} before it is bound', loc=c_.loc,
+                           msg=f'{iname} calls desc->{fp[-1][1]} on a path on which the member has not been assigned yet (line {c_.line}): refusals that happen before the '
+                               'symbol is bound jump through a NULL / indeterminate pointer')
+    if not n17e:
+        r.ok('no init calls through a member of the descriptor it is still building', func='<backend inits>', loc='src/backends')
+    r.require_min(1)
     ctx.borrow('c14', ['R14f'], 'a failed create must not change the reference count of the shared GF tables')
     ctx.borrow('c18', ['R18d'], 'a failed call must not leave the registry lock held')
     ctx.borrow('c16', ['R16a', 'R16f', 'R16g', 'R16i'], 'a failing operation releases everything it allocated, exactly once')
